@@ -4,7 +4,9 @@ import (
 	"errors"
 	"fmt"
 	"io"
+	"reflect"
 	"runtime"
+	"strconv"
 	"sync"
 	"sync/atomic"
 	"time"
@@ -14,12 +16,110 @@ import (
 	"verif/harness/lib"
 )
 
-type SR = *schema.StreamReader[uint64]
-type SW = *schema.StreamWriter[uint64]
-
 type tErr struct{ code uint64 }
 
 func (e *tErr) Error() string { return fmt.Sprintf("terr%d", e.code) }
+
+// ------------------------------------------------------------------ chunk types
+//
+// The model's values are numbers; the implementation is generic in its chunk type. A case names
+// the chunk type its streams are instantiated with (Case.Ty) and the harness translates item-wise
+// (codec): 0 is the zero value of the type (the empty string, the nil pointer, the nil value of
+// the interface type), every other number a distinct non-zero value. The model side of the tie
+// does not know the type: a behaviour of the library that depends on it is a mismatch.
+
+// box: the struct behind the pointer chunks (and one of the dynamic types of the interface chunks)
+type box struct {
+	V   uint64
+	pad [2]string
+}
+
+// chunkI: a defined interface type with a method; its dynamic types are boxV (a defined
+// non-pointer type) and *box
+type chunkI interface{ C08() uint64 }
+
+type boxV uint64
+
+func (b boxV) C08() uint64 { return uint64(b) }
+func (b *box) C08() uint64 { return b.V }
+
+const badChunk = 999997 // a chunk the codec cannot read: never equal to anything that was sent
+
+type codec[T any] struct {
+	enc func(uint64) T
+	dec func(T) uint64
+}
+
+var (
+	codecU64 = codec[uint64]{enc: func(v uint64) uint64 { return v }, dec: func(v uint64) uint64 { return v }}
+	codecStr = codec[string]{
+		enc: func(v uint64) string {
+			if v == 0 {
+				return ""
+			}
+			return strconv.FormatUint(v, 10)
+		},
+		dec: func(s string) uint64 {
+			if s == "" {
+				return 0
+			}
+			v, err := strconv.ParseUint(s, 10, 64)
+			if err != nil || v == 0 {
+				return badChunk
+			}
+			return v
+		},
+	}
+	codecPtr = codec[*box]{
+		enc: func(v uint64) *box {
+			if v == 0 {
+				return nil
+			}
+			return &box{V: v}
+		},
+		dec: func(b *box) uint64 {
+			if b == nil {
+				return 0
+			}
+			if b.V == 0 {
+				return badChunk
+			}
+			return b.V
+		},
+	}
+	codecIface = codec[chunkI]{
+		enc: func(v uint64) chunkI {
+			switch {
+			case v == 0:
+				return nil
+			case v%2 == 1:
+				return boxV(v)
+			default:
+				return &box{V: v}
+			}
+		},
+		dec: func(c chunkI) uint64 {
+			switch x := c.(type) {
+			case nil:
+				return 0
+			case boxV:
+				if x == 0 {
+					return badChunk
+				}
+				return uint64(x)
+			case *box:
+				if x == nil || x.V == 0 {
+					return badChunk
+				}
+				return x.V
+			}
+			return badChunk
+		},
+	}
+)
+
+// chunkTypes: the values of Case.Ty ("" = uint64)
+var chunkTypes = []string{"", "str", "ptr", "iface"}
 
 func (x Item) goPair() (uint64, error) {
 	if x.Err {
@@ -46,33 +146,95 @@ func classify(v uint64, err error) O {
 	return O{K: "recv", R: "item", X: &Item{V: 999999, Err: true}}
 }
 
-func mkConv(f CFn) func(uint64) (uint64, error) {
-	return func(v uint64) (uint64, error) {
-		switch k, out := f.apply(v); k {
+func mkConv[T any](cd codec[T], f CFn) func(T) (T, error) {
+	return func(t T) (T, error) {
+		var zero T
+		switch k, out := f.apply(cd.dec(t)); k {
 		case 2:
 			if f.Wrap {
-				return 0, fmt.Errorf("nothing here: %w", schema.ErrNoValue)
+				return zero, fmt.Errorf("nothing here: %w", schema.ErrNoValue)
 			}
-			return 0, schema.ErrNoValue
+			return zero, schema.ErrNoValue
 		case 1:
-			return 0, &tErr{out}
+			return zero, &tErr{out}
 		default:
-			return out, nil
+			return cd.enc(out), nil
 		}
 	}
 }
 
-// world: the implementation objects of one case.
-type world struct {
-	hs      []SR
-	writers map[int]SW
-	nfwd    int
-	arena   []uint64 // backing array shared by the array sources with Spare == 1
+// assertChunk: a.(T), where a nil chunk is the nil value of T if T is an interface type
+func assertChunk[T any](a any) (T, bool) {
+	v, ok := a.(T)
+	if !ok && a == nil {
+		if reflect.TypeOf((*T)(nil)).Elem().Kind() == reflect.Interface {
+			return v, true
+		}
+	}
+	return v, ok
 }
 
-func newWorld() *world { return &world{writers: map[int]SW{}} }
+// viaNilAny: item-wise identity through a stream of any in which the zero value of T travels as a
+// nil chunk (nil is a valid value of every interface type), and back: schema's
+// StreamReaderWithConvert applied to a stream of an interface type that holds nil chunks.
+func viaNilAny[T any](cd codec[T], sr *schema.StreamReader[T]) *schema.StreamReader[T] {
+	asr := schema.StreamReaderWithConvert(sr, func(v T) (any, error) {
+		if cd.dec(v) == 0 {
+			return nil, nil
+		}
+		return v, nil
+	})
+	return schema.StreamReaderWithConvert(asr, func(a any) (T, error) {
+		var zero T
+		if a == nil {
+			return zero, nil
+		}
+		v, ok := a.(T)
+		if !ok {
+			return zero, fmt.Errorf("verif c08: chunk of type %T in the stream of any", a)
+		}
+		return v, nil
+	})
+}
 
-func (w *world) idsOf(rets []SR) []int {
+// iworld: the implementation objects of one case, behind the chunk type they are instantiated with.
+type iworld interface {
+	construct(o Op) O
+	send(hp int, x Item) O
+	closeSend(hp int) O
+	recv(h int) O
+	close(h int) O
+	// the same calls without a recover (goroutines of the concurrent cases have their own)
+	rawRecv(h int) O
+	rawClose(h int)
+	rawSend(hp int, x Item) bool
+	rawCloseSend(hp int)
+	forwarders() int
+}
+
+func newWorld(ty string) iworld {
+	switch ty {
+	case "str":
+		return &world[string]{cd: codecStr, writers: map[int]*schema.StreamWriter[string]{}}
+	case "ptr":
+		return &world[*box]{cd: codecPtr, writers: map[int]*schema.StreamWriter[*box]{}}
+	case "iface":
+		return &world[chunkI]{cd: codecIface, writers: map[int]*schema.StreamWriter[chunkI]{}}
+	}
+	return &world[uint64]{cd: codecU64, writers: map[int]*schema.StreamWriter[uint64]{}}
+}
+
+type world[T any] struct {
+	cd      codec[T]
+	hs      []*schema.StreamReader[T]
+	writers map[int]*schema.StreamWriter[T]
+	nfwd    int
+	arena   []T // backing array shared by the array sources with Spare == 1
+}
+
+func (w *world[T]) forwarders() int { return w.nfwd }
+
+func (w *world[T]) idsOf(rets []*schema.StreamReader[T]) []int {
 	ids := []int{}
 	for _, r := range rets {
 		if r == nil {
@@ -95,31 +257,35 @@ func (w *world) idsOf(rets []SR) []int {
 }
 
 // construct performs one constructor call; goroutines it starts are counted.
-func (w *world) construct(o Op) O {
+func (w *world[T]) construct(o Op) O {
 	before := runtime.NumGoroutine()
-	var rets []SR
+	var rets []*schema.StreamReader[T]
 	switch o.K {
 	case "pipe":
-		sr, sw := schema.Pipe[uint64](o.Cap)
+		sr, sw := schema.Pipe[T](o.Cap)
 		w.writers[len(w.hs)] = sw
-		rets = []SR{sr}
+		rets = []*schema.StreamReader[T]{sr}
 	case "array":
-		var xs []uint64
+		var xs []T
 		if o.Spare == 1 {
 			// a window of the case's arena: legal use of the API (the caller slices one buffer into
 			// consecutive pieces and hands each to StreamReaderFromArray); the library must not
 			// write through the spare capacity of a piece into the next ones
 			if w.arena == nil {
-				w.arena = make([]uint64, 0, 512)
+				w.arena = make([]T, 0, 512)
 			}
 			start := len(w.arena)
-			w.arena = append(w.arena, o.Xs...)
+			for _, v := range o.Xs {
+				w.arena = append(w.arena, w.cd.enc(v))
+			}
 			xs = w.arena[start:len(w.arena)]
 		} else {
-			xs = make([]uint64, len(o.Xs))
-			copy(xs, o.Xs)
+			xs = make([]T, len(o.Xs))
+			for i, v := range o.Xs {
+				xs[i] = w.cd.enc(v)
+			}
 		}
-		rets = []SR{schema.StreamReaderFromArray(xs)}
+		rets = []*schema.StreamReader[T]{schema.StreamReaderFromArray(xs)}
 	case "copy":
 		if o.Via == "compose" {
 			rets = composeCopy(w.hs[o.H], o.N)
@@ -129,23 +295,23 @@ func (w *world) construct(o Op) O {
 	case "conv":
 		switch o.Via {
 		case "any": // (F is the identity: three nested conversions of the library = one identity conversion of the model)
-			rets = []SR{composeViaAny(w.hs[o.H])}
+			rets = []*schema.StreamReader[T]{composeViaAny(w.hs[o.H])}
 		case "key":
-			rets = []SR{composeViaKey(w.hs[o.H])}
+			rets = []*schema.StreamReader[T]{composeViaKey(w.hs[o.H])}
 		case "nil":
-			rets = []SR{composeViaNilAny(w.hs[o.H])}
+			rets = []*schema.StreamReader[T]{viaNilAny(w.cd, w.hs[o.H])}
 		default:
-			rets = []SR{schema.StreamReaderWithConvert(w.hs[o.H], mkConv(*o.F))}
+			rets = []*schema.StreamReader[T]{schema.StreamReaderWithConvert(w.hs[o.H], mkConv(w.cd, *o.F))}
 		}
 	case "merge":
-		srs := make([]SR, len(o.Hs))
+		srs := make([]*schema.StreamReader[T], len(o.Hs))
 		for i, h := range o.Hs {
 			srs[i] = w.hs[h]
 		}
 		if o.Via == "compose" && len(srs) > 0 {
-			rets = []SR{composeMerge(srs)}
+			rets = []*schema.StreamReader[T]{composeMerge(srs)}
 		} else {
-			rets = []SR{schema.MergeStreamReaders(srs)}
+			rets = []*schema.StreamReader[T]{schema.MergeStreamReaders(srs)}
 		}
 	}
 	if d := runtime.NumGoroutine() - before; d > 0 {
@@ -154,10 +320,26 @@ func (w *world) construct(o Op) O {
 	return O{K: "new", Hs: w.idsOf(rets)}
 }
 
-func (w *world) send(hp int, x Item) (o O) {
+func (w *world[T]) rawSend(hp int, x Item) bool {
 	v, e := x.goPair()
+	return w.writers[hp].Send(w.cd.enc(v), e)
+}
+
+func (w *world[T]) rawCloseSend(hp int) { w.writers[hp].Close() }
+
+func (w *world[T]) rawRecv(h int) O {
+	v, err := w.hs[h].Recv()
+	if err != nil {
+		return classify(0, err)
+	}
+	return classify(w.cd.dec(v), nil)
+}
+
+func (w *world[T]) rawClose(h int) { w.hs[h].Close() }
+
+func (w *world[T]) send(hp int, x Item) (o O) {
 	var closed bool
-	if p := lib.Recover(func() { closed = w.writers[hp].Send(v, e) }); p != nil {
+	if p := lib.Recover(func() { closed = w.rawSend(hp, x) }); p != nil {
 		return O{K: "send", R: "panic"}
 	}
 	if closed {
@@ -166,22 +348,22 @@ func (w *world) send(hp int, x Item) (o O) {
 	return O{K: "send", R: "ok"}
 }
 
-func (w *world) closeSend(hp int) O {
-	if p := lib.Recover(func() { w.writers[hp].Close() }); p != nil {
+func (w *world[T]) closeSend(hp int) O {
+	if p := lib.Recover(func() { w.rawCloseSend(hp) }); p != nil {
 		return O{K: "send", R: "panic"}
 	}
 	return O{K: "send", R: "ok"}
 }
 
-func (w *world) recv(h int) (o O) {
-	if p := lib.Recover(func() { o = classify(w.hs[h].Recv()) }); p != nil {
+func (w *world[T]) recv(h int) (o O) {
+	if p := lib.Recover(func() { o = w.rawRecv(h) }); p != nil {
 		return O{K: "recv", R: "panic"}
 	}
 	return o
 }
 
-func (w *world) close(h int) O {
-	if p := lib.Recover(func() { w.hs[h].Close() }); p != nil {
+func (w *world[T]) close(h int) O {
+	if p := lib.Recover(func() { w.rawClose(h) }); p != nil {
 		return O{K: "close", R: "panic"}
 	}
 	return O{K: "close", R: "ok"}
@@ -280,7 +462,7 @@ func runSeq(c *Case) lib.Result {
 				fail("panic", out.Msg)
 			}
 		}()
-		w := newWorld()
+		w := newWorld(c.Ty)
 		sh := newShadow()
 		schema.VerifC19Start()
 		type hist struct {
@@ -375,9 +557,9 @@ func runSeq(c *Case) lib.Result {
 				}
 			}
 		}
-		out.NFwd = w.nfwd
-		if w.nfwd != 0 {
-			fail("goroutine", fmt.Sprintf("array/copy/convert operations started %d goroutine(s)", w.nfwd))
+		out.NFwd = w.forwarders()
+		if out.NFwd != 0 {
+			fail("goroutine", fmt.Sprintf("array/copy/convert operations started %d goroutine(s)", out.NFwd))
 		}
 		// the underlying source is closed exactly once, and only when every reader derived from
 		// it has been closed (the base streams of a script are its pipes, in creation order)
@@ -518,7 +700,7 @@ func runConcOnce(c *Case, seed uint64) lib.Result {
 		}
 	}
 	base := runtime.NumGoroutine()
-	w := newWorld()
+	w := newWorld(c.Ty)
 	sh := newShadow()
 	schema.VerifC19Start()
 	buildOK := true
@@ -554,9 +736,9 @@ func runConcOnce(c *Case, seed uint64) lib.Result {
 		res.CoqTerm = lib.CoqApp("CaseConc", coqOps(c.Ops), "[BIllegal]", "[]", "[]", "true", "0%nat")
 		return res
 	}
-	if w.nfwd > sh.nfwd {
+	if w.forwarders() > sh.nfwd {
 		// (a forwarder over an exhausted source may already be gone when it is counted)
-		fail("goroutine", fmt.Sprintf("construction started %d goroutines, expected at most %d forwarders", w.nfwd, sh.nfwd))
+		fail("goroutine", fmt.Sprintf("construction started %d goroutines, expected at most %d forwarders", w.forwarders(), sh.nfwd))
 	}
 	tags := []string{"mode:conc", fmt.Sprintf("fwd:%d", sh.nfwd), fmt.Sprintf("leaves:%d", len(c.Leaves)), fmt.Sprintf("pipes:%d", len(c.Writers))}
 	if !buildOK {
@@ -605,7 +787,7 @@ func runConcOnce(c *Case, seed uint64) lib.Result {
 			limit = limits[i]
 		}
 	}
-	var runaway atomic.Int32
+	var runaway, afterEOF atomic.Int32
 	// logical clock: a writer takes a stamp before it calls Close, a reader after Recv returned
 	// io.EOF; a reader stamp below the stamp of a writer it derives from means the stream ended
 	// before that source had ended (independent of scheduling and machine load)
@@ -629,10 +811,17 @@ func runConcOnce(c *Case, seed uint64) lib.Result {
 			spinUntilAll(&started) // storm cases: the first Recv of every copy at the same instant
 			for l.Max < 0 || len(h.Got) < l.Max {
 				yield(r)
-				o := classify(w.hs[l.H].Recv())
+				o := w.rawRecv(l.H)
 				if o.R == "eof" {
 					eofAt[i] = clock.Add(1)
 					h.EOF = true
+					// end-of-stream is final: a further Recv on the same reader (a second call on an
+					// ended object; it cannot block, whatever the reader is made of) says io.EOF again
+					for k, n := 0, []int{0, 0, 1, 2}[r.Intn(4)]; k < n; k++ {
+						if o2 := w.rawRecv(l.H); o2.R != "eof" {
+							afterEOF.Add(1)
+						}
+					}
 					break
 				}
 				h.Got = append(h.Got, *o.X)
@@ -646,7 +835,7 @@ func runConcOnce(c *Case, seed uint64) lib.Result {
 			} else {
 				yield(r)
 			}
-			w.hs[l.H].Close()
+			w.rawClose(l.H)
 		}(i, l)
 	}
 	for i, wr := range c.Writers {
@@ -683,12 +872,10 @@ func runConcOnce(c *Case, seed uint64) lib.Result {
 					<-d
 				}
 			}
-			sw := w.writers[wr.HP]
 			for _, x := range wr.Items {
 				yield(r)
 				late := allFedDone()
-				v, e := x.goPair()
-				closed := sw.Send(v, e)
+				closed := w.rawSend(wr.HP, x)
 				h.Results = append(h.Results, closed)
 				if closed {
 					break
@@ -699,7 +886,7 @@ func runConcOnce(c *Case, seed uint64) lib.Result {
 			}
 			yield(r)
 			closeAt[i] = clock.Add(1)
-			sw.Close()
+			w.rawCloseSend(wr.HP)
 		}(i, wr)
 	}
 	fin := make(chan struct{})
@@ -720,6 +907,9 @@ func runConcOnce(c *Case, seed uint64) lib.Result {
 	out.Writers, out.Leaves = wh, lh
 	if n := panics.Load(); n > 0 {
 		fail("panic", fmt.Sprintf("%d goroutine(s) panicked inside a stream call", n))
+	}
+	if n := afterEOF.Load(); n > 0 {
+		fail("item-after-eof", fmt.Sprintf("%d Recv call(s) on a reader that had already returned io.EOF did not return io.EOF", n))
 	}
 	if n := runaway.Load(); n > 0 {
 		fail("runaway", fmt.Sprintf("%d reader(s) received more items than the sources it is derived from hold (largest bound %d)", n, limit))
@@ -857,6 +1047,15 @@ func runConcOnce(c *Case, seed uint64) lib.Result {
 	for _, o := range c.Ops {
 		if o.K == "merge" && len(o.Hs) > 5 {
 			tags = append(tags, "merge:reflect-select")
+		}
+	}
+	// number of base streams a merged reader selects on (receiveN has one select statement per arity
+	// up to maxSelectNum; nested merges are flattened)
+	seenAr := map[int]bool{}
+	for _, h := range sh.hs {
+		if h.kind == "mul" && !seenAr[h.nstreams] {
+			seenAr[h.nstreams] = true
+			tags = append(tags, fmt.Sprintf("merge-arity:%d", h.nstreams))
 		}
 	}
 	for _, wr := range c.Writers {
